@@ -217,12 +217,20 @@ class Loader:
         except be.ObjectNotFoundError:
             _LOGGER.warning('Server node not found: %s', servername)
 
-    def remove_server(self, servername):
-        """Remove server from scheduler."""
+    def remove_server(self, servername, gone=False):
+        """Remove server from scheduler.
+
+        If the server is gone for good, so are its placement records (a cycle
+        may have placed apps on it after its records were deleted).
+        """
         if servername not in self.servers:
             return
 
         server = self.servers[servername]
+        if gone:
+            for appname in list(server.apps):
+                self.backend.delete(z.path.placement(servername, appname))
+
         server.remove_all()
         server.parent.remove_node(server)
 
@@ -280,7 +288,7 @@ class Loader:
                     self.restore_placement(servername, restore_identity=False)
 
         except be.ObjectNotFoundError:
-            self.remove_server(servername)
+            self.remove_server(servername, gone=True)
             _LOGGER.warning('Server node not found: %s', servername)
 
     def create_server(self, servername, data):
